@@ -57,7 +57,7 @@ def parse_length(attr_value: str) -> typing.Tuple[float, str]:
 _FAMILIES_ESCAPED_CHAR = re.compile(r"\\(.)")
 _SINGLE_QUOTE_PATTERN = "(?:'(?P<single_quote>(.+?)(?<!\\\\))')"
 _DOUBLE_QUOTE_PATTERN = "(?:\"(?P<double_quote>(.+?)(?<!\\\\))\")"
-_NO_QUOTE_PATTERN = "(?P<no_quote>(?:\\\\.|[^'\", ])(?:\\\\.|[^'\",])+)"
+_NO_QUOTE_PATTERN = "(?P<no_quote>(?:\\\\.|[^'\", ])(?:\\\\.|[^'\",])*)"
 
 _FONT_FAMILY_PATTERN = re.compile(
   "|".join(
